@@ -70,6 +70,9 @@ def run(pid, argv, want=None):
                               failing_input=failing)
     finally:
         wd.cleanup()
+    if pid == 'C02':
+        import transcription
+        transcription.report(rep, ['strict_port'])
     gate = proof_gate(pid)
     return rep.finish(gate, 'generated valid (model, configuration) pairs (ports sharing interfaces, in/out/inout formals, replies, all '
                       'presets and explicit selections, both facility origins); files compared byte for byte with the model; each shell '
